@@ -36,6 +36,8 @@ type SpecEnv struct {
 	mode string // "assume" | "prove"
 	freshBase int64 // regions > freshBase are "allocated during the call"
 	loopEntry *State // state when the enclosing loop was entered (entry(e))
+	prevSt    *State        // state at the head of the current iteration (prev(e), step clauses only)
+	prevVars  map[string]TV // variables at the head of the current iteration
 }
 
 type specErr struct{ msg string }
@@ -734,6 +736,26 @@ func (e *SpecEnv) evalCall(n *Node) TV {
 		}
 		n2 := *e
 		n2.st = e.loopEntry
+		return n2.eval(args[0])
+	case "prev":
+		if e.prevSt == nil {
+			sfail("prev() outside a loop step clause")
+		}
+		n2 := *e
+		n2.st = e.prevSt
+		n2.vars = map[string]TV{}
+		for k, v := range e.vars { // bound variables of enclosing quantifiers stay visible
+			n2.vars[k] = v
+		}
+		for k, v := range e.prevVars {
+			if cur, ok := e.vars[k]; ok {
+				if ct, isT := cur.V.(*Term); isT && ct.Op == "bvar" {
+					continue
+				}
+			}
+			n2.vars[k] = v
+		}
+		n2.prevSt = nil
 		return n2.eval(args[0])
 	case "callres":
 		// callres("callee", k): results of the k-th call of that function on this path
